@@ -133,7 +133,7 @@ func init() {
 	}
 }
 
-// mayAlias: may the result of leaf `name` share memory with its argument number i?
+// mayAlias: may the (reference-typed) result of leaf `name` share memory with its argument number i?
 func mayAlias(name string, i int) bool { return mayWrite(name, i) }
 
 // mayWrite: may leaf `name` write through its argument number i?
@@ -426,19 +426,34 @@ func (t *tr) prescan() {
 	}
 	// dynamic types of interface values: only types that some MakeInterface in the whole program
 	// (standard library included) converts to an interface can be the receiver of an interface call
+	// ... and only a function that is used as a value somewhere (operand other than the callee
+	// position of a static call) can be the target of a call through a func value
 	made := map[string]bool{}
+	taken := map[*ssa.Function]bool{}
 	for f := range all {
 		for _, b := range f.Blocks {
 			for _, in := range b.Instrs {
 				if mi, ok := in.(*ssa.MakeInterface); ok {
 					made[types.TypeString(mi.X.Type(), nil)] = true
 				}
+				var calleePos *ssa.Value
+				if c, ok := in.(ssa.CallInstruction); ok && !c.Common().IsInvoke() {
+					calleePos = &c.Common().Value
+				}
+				for _, op := range in.Operands(nil) {
+					if fn, ok := (*op).(*ssa.Function); ok && op != calleePos {
+						taken[fn] = true
+					}
+				}
 			}
 		}
 	}
 	t.live = func(site ssa.CallInstruction, callee *ssa.Function) bool {
-		if site == nil || !site.Common().IsInvoke() {
+		if site == nil {
 			return true
+		}
+		if !site.Common().IsInvoke() {
+			return site.Common().StaticCallee() != nil || taken[callee]
 		}
 		r := callee.Signature.Recv()
 		return r == nil || made[types.TypeString(r.Type(), nil)]
@@ -531,7 +546,9 @@ func (t *tr) reachableFrom(starts []string) map[*ssa.Function]bool {
 		stack = stack[:len(stack)-1]
 		if cn := t.cg.Nodes[f]; cn != nil {
 			for _, e := range cn.Out {
-				push(e.Callee.Func)
+				if t.live(e.Site, e.Callee.Func) {
+					push(e.Callee.Func)
+				}
 			}
 		}
 		for _, a := range f.AnonFuncs {
